@@ -40,7 +40,15 @@ def main(argv=None) -> int:
         if args.tier == "thorough" and not args.no_selftest and args.root == "/repo" and not args.replay:
             from .selftest.runner import run_selftest
 
-            run_selftest(prop, run)
+            if any(not o["ok"] for o in run.obligations if not run.is_known(o)):
+                # the tree itself violates the property: every variant would inherit that violation
+                run.selftest = {"skipped": "the tree under test has open violations; the self-test runs on trees where the property holds"}
+            else:
+                try:
+                    run_selftest(prop, run)
+                except Exception as ex:  # noqa: BLE001 - the self-test must never change the verdict
+                    run.selftest = {"error": f"{type(ex).__name__}: {ex}"}
+                    print(f"SELFTEST property={prop} error={type(ex).__name__}")
         return run.finish(write_evidence=not args.no_evidence and args.root == "/repo")
     except AnchorMissing as ex:
         return analysis_error(prop, f"anchor missing: {ex}")
